@@ -889,6 +889,19 @@ func (r *runner) doInterest(op *Op) {
 	if now+life > m.lifeMax {
 		m.lifeMax = now + life
 	}
+	// A cached /localhost packet may have "answered" an Interest from a non-local face: the scope rule
+	// stops the Data, yet the forwarder has consumed the Interest (as NFD does). Whether that happened
+	// depends on which cached packet the lookup picked, so the record is only a "may" record.
+	if G.scope == defn.NonLocal && r.sc.Config.CsServe && !hadRec {
+		for _, n := range anyAcc {
+			if isLocalhost(n) {
+				accepted = false
+				e.uncertain = true
+				r.ctx.Probe("cs/scope-blocked-answer")
+				break
+			}
+		}
+	}
 	rec := e.in[op.Face]
 	tok := tokenBytes(op.Token)
 	if rec == nil {
